@@ -28,12 +28,23 @@ def falsy(x):
     return [] if x % 2 else 0
 
 
+def excval(x):
+    # results may be any picklable object: an exception *instance* returned (not raised) is a value like any other
+    return ValueError("multiple of three", x) if x % 3 == 0 else (KeyError(x) if x % 3 == 1 else x)
+
+
+def canon(v):
+    return (type(v).__name__, v.args) if isinstance(v, BaseException) else v
+
+
 SCENARIOS = {
     # name: (kind, workers, functor, [(items, chunk_size)])
     "fmap_small": ("fmap", 2, small, [(10, 3), (0, 1), (1, 5), (7, 1)]),
     "fmap_big_results": ("fmap", 2, big, [(8, 1), (5, 2)]),
     "fmap_none_and_falsy": ("fmap", 3, small, [(9, 2)]),
     "fmap_falsy_results": ("fmap", 2, falsy, [(6, 1)]),
+    "fmap_exception_values": ("fmap", 2, excval, [(7, 2), (4, 1)]),
+    "mulp_exception_values": ("mulp", 2, excval, [(6, 1)]),
     "mulp_small": ("mulp", 3, small, [(20, 1), (0, 1), (2, 1)]),
     "mulp_big_results": ("mulp", 2, big, [(6, 1)]),
 }
@@ -54,16 +65,16 @@ def main(name):
         with FunctorMap(fun, workers) as m:
             for n, cs in calls:
                 data = inputs(name, n)
-                got = list(m(iter(data), cs))
-                exp = [fun(x) for x in data]
+                got = [canon(v) for v in m(iter(data), cs)]
+                exp = [canon(fun(x)) for x in data]
                 if got != exp:
                     print(f"WRONG {name}: {n} items, chunk {cs}: got {str(got)[:200]}, expected {str(exp)[:200]}")
                     ok = False
     else:
         for n, cs in calls:
             data = inputs(name, n)
-            got = mul_p_map(fun, iter(data), workers)
-            exp = [fun(x) for x in data]
+            got = [canon(v) for v in mul_p_map(fun, iter(data), workers)]
+            exp = [canon(fun(x)) for x in data]
             if list(got) != exp:
                 print(f"WRONG {name}: {n} items: got {str(got)[:200]}, expected {str(exp)[:200]}")
                 ok = False
